@@ -36,3 +36,8 @@ VARIANTS = [
     v("c11-twin-yidx", "return 3 * (self.month - 1) + self.idx", "return self._dkd % 36 + 1", expect="silent"),
     v("c11-twin-day", "return 1 + (self._dkd % 3) * 10", "return 10 * self.idx - 9", expect="silent"),
 ]
+
+VARIANTS += [
+    v("c11-ndays-table", "        return (self.end_date - self.start_date + timedelta(microseconds=1)).days\n",
+      "        if self.idx < 3:\n            return 10\n        if self.month == 2:\n            return 9 if self.year % 4 == 0 else 8\n        return 11 if self.month in (1, 3, 5, 7, 8, 10, 12) else 10\n", names="ndays", note="seeded C11a: Julian leap rule in a closed-form table"),
+]
